@@ -128,7 +128,7 @@ pub fn one_case(kind: &str, si: &gen::SchemaInfo, input: &J, out: &mut Out) {
     }
 }
 
-fn merge_sdl() -> String { format!("{}\ninput In {{ a: Int  b: Int  fl: Float }}\ninterface Pet {{ name: String  nick: String  owner: Human }}\ntype Dog implements Pet {{ name: String  nick: String  barks: Boolean  owner: Human  n: Int  l: [Int]  m: Int!  boss: Human!  pack: [Human!] }}\ntype Cat implements Pet {{ name: String  nick: String  meows: Boolean  owner: Human  n: String  l: [Int!]  m: Int  boss: Human  pack: [Human] }}\nunion CatOrDog = Cat | Dog\ntype Human {{ name: String  nick: String  f(x: Int, y: [Int], o: In, fl: Float): Int  list: [Int]  nn: Int!  self: Human  pet: Pet  dog: Dog  cd: CatOrDog }}\ntype Query {{ human: Human  pet: Pet  dog: Dog  cat: Cat  cd: CatOrDog }}\n", schemas::PRELUDE) }
+fn merge_sdl() -> String { format!("{}\ninput In {{ a: Int  b: Int  fl: Float }}\ninterface Pet {{ name: String  nick: String  owner: Human }}\ninterface Feline {{ name: String  nick: String  owner: Human }}\ntype Dog implements Pet {{ name: String  nick: String  barks: Boolean  owner: Human  n: Int  l: [Int]  m: Int!  boss: Human!  pack: [Human!] }}\ntype Cat implements Pet & Feline {{ name: String  nick: String  meows: Boolean  owner: Human  n: String  l: [Int!]  m: Int  boss: Human  pack: [Human] }}\nunion CatOrDog = Cat | Dog\ntype Human {{ name: String  nick: String  f(x: Int, y: [Int], o: In, fl: Float): Int  list: [Int]  nn: Int!  self: Human  pet: Pet  dog: Dog  cd: CatOrDog }}\ntype Query {{ human: Human  pet: Pet  dog: Dog  cat: Cat  cd: CatOrDog }}\n", schemas::PRELUDE) }
 
 fn frags_sdl() -> String { format!("{}\nscalar Custom\nenum E {{ X }}\ninput In {{ x: Int }}\ninterface I {{ a: Int  t: T }}\ninterface J implements I {{ a: Int  t: T }}\ninterface K {{ a: Int }}\ninterface L {{ a: Int }}\ninterface M implements I {{ a: Int  t: T }}\ntype T implements I & J & K {{ a: Int  t: T  i: I  j: J  u: U  k: K }}\ntype V {{ a: Int }}\ntype W implements I {{ a: Int  t: T }}\ntype X implements K & L {{ a: Int }}\nunion U = T | V\nunion U2 = V | W\ntype Query {{ a: Int  t: T  i: I  j: J  u: U  u2: U2  v: V  w: W  k: K  l: L  x: X  m: M }}\n", schemas::PRELUDE) }
 
@@ -279,6 +279,17 @@ scalar __Custom\ninput __In { x: Int  y: __In }\ninterface __Node { id: Int }\nu
             let frag_bodies = ["a", "a ...G", "t { ...G }", "...F", "a ... on V { a }", "...Nope", "t { t { ...F } }"];
             let tcs = ["T", "V", "I", "Query", "E", "Nope"];
             let ops = ["{ a }", "{ t { ...F } }", "{ t { ...G } }", "{ v { ...F } }", "{ t { ...F ...G } } query B { a }", "{ t { ...F } } { a }"];
+            // one fragment name defined twice with different type conditions / bodies: the rules that look fragments up by name all see
+            // the same one of the two, whichever rules ran before them in the plan
+            {
+                let defs = [("T", "a"), ("V", "a"), ("T", "...F"), ("T", "...G"), ("T", "t { ...F }"), ("Nope", "a"), ("I", "a ... on V { a }")];
+                for (i, (t1, b1)) in defs.iter().enumerate() { for (j, (t2, b2)) in defs.iter().enumerate() {
+                    if i == j { continue; }
+                    let t = format!("{{ t {{ ...F }} }} fragment F on {} {{ {} }} fragment F on {} {{ {} }} fragment G on T {{ a }}", t1, b1, t2, b2);
+                    let plans = crate::valcases::random_plans(&mut rng, 2);
+                    crate::valcases::validate_case_plans(&si, &t, &tmp, &plans, out);
+                } }
+            }
             let mut k = 0usize;
             for op in ops.iter() { for fb in frag_bodies.iter() { for gb in frag_bodies.iter() { for (i, ft) in tcs.iter().enumerate() {
                 k += 1;
@@ -600,7 +611,7 @@ scalar __Custom\ninput __In { x: Int  y: __In }\ninterface __Node { id: Int }\nu
             crate::valcases::FULL_MODE.store(0, std::sync::atomic::Ordering::Relaxed);
             let tmp = tmpdir();
             // (c) one violation at a time, at two nesting depths, over a small schema
-            let sdl = format!("{}\ninput In {{ req: Int!  opt: String }}\nenum E {{ X Y }}\ninterface P {{ a: Int }}\ntype T implements P {{ a: Int  b: String  t: T  g(i: Int, l: [Int!], o: In, r: Int!): Int }}\ntype V {{ v: Int }}\nunion U = T | V\ntype Query {{ a: Int  t: T  f(x: Int, r: Int!): Int  p: P  u: U }}\ntype Mutation {{ m: Int }}\ninterface Feed {{ s1: Int }}\nunion SubU = Subscription | V\ntype Subscription implements Feed {{ s1: Int  s2: Int }}\ndirective @onField on FIELD\ndirective @onQuery on QUERY\n", schemas::PRELUDE);
+            let sdl = format!("{}\ninput In {{ req: Int!  opt: String }}\nenum E {{ X Y }}\ninterface P {{ a: Int  a2: Int }}\ninterface P2 {{ c: Int }}\ntype T2 implements P & P2 {{ a: Int  a2: Int  c: Int }}\ntype T implements P {{ a: Int  a2: Int  b: String  t: T  g(i: Int, l: [Int!], o: In, r: Int!): Int }}\ntype V {{ v: Int }}\nunion U = T | V\ntype Query {{ a: Int  t: T  f(x: Int, r: Int!): Int  p: P  u: U }}\ntype Mutation {{ m: Int }}\ninterface Feed {{ s1: Int }}\nunion SubU = Subscription | V\ntype Subscription implements Feed {{ s1: Int  s2: Int }}\ndirective @onField on FIELD\ndirective @onQuery on QUERY\n", schemas::PRELUDE);
             let si1 = gen::SchemaInfo::new("single-violation", &sdl);
             out.schema(&si1);
             let singles: Vec<(&str, &str)> = vec![
@@ -614,7 +625,7 @@ scalar __Custom\ninput __In { x: Int  y: __In }\ninterface __Node { id: Int }\nu
                 ("UniqueFragmentNames", "{ ...F } fragment F on Query { a } fragment F on Query { a }"),
                 ("KnownFragmentNames", "{ ...Nope }"), ("KnownFragmentNames", "{ t { t { ...Nope } } }"),
                 ("NoUnusedFragments", "{ a } fragment F on Query { a }"), ("NoUnusedFragments", "{ ...G } fragment G on Query { a } fragment F on T { a }"),
-                ("OverlappingFieldsCanBeMerged", "{ t { x: a x: b } }"), ("OverlappingFieldsCanBeMerged", "{ t { t { a } } t { t { a: b } } }"), ("OverlappingFieldsCanBeMerged", "{ t { g(i: 1, r: 1) g(i: 2, r: 1) } }"),
+                ("OverlappingFieldsCanBeMerged", "{ t { x: a x: b } }"), ("OverlappingFieldsCanBeMerged", "{ p { ... on T { x: a } ... on P2 { x: c } } }"), ("OverlappingFieldsCanBeMerged", "{ p { ...A ...B } } fragment A on T { ... on P { x: a } } fragment B on T2 { ... on P { x: a2 } }"), ("OverlappingFieldsCanBeMerged", "{ t { t { a } } t { t { a: b } } }"), ("OverlappingFieldsCanBeMerged", "{ t { g(i: 1, r: 1) g(i: 2, r: 1) } }"),
                 ("NoFragmentsCycle", "{ ...F } fragment F on Query { a ...F }"), ("NoFragmentsCycle", "{ t { ...A } } fragment A on T { a ...B } fragment B on T { b ...A }"),
                 ("PossibleFragmentSpreads", "{ t { ... on V { v } } }"), ("PossibleFragmentSpreads", "{ t { t { ...F } } } fragment F on Query { a }"),
                 ("NoUnusedVariables", "query ($v: Int) { a }"), ("NoUnusedVariables", "query ($v: Int, $w: Int) { t { g(i: $v, r: 1) } }"),
@@ -871,6 +882,23 @@ scalar __Custom\ninput __In { x: Int  y: __In }\ninterface __Node { id: Int }\nu
                     }
                 }
             } }
+            // ---- same-key fields whose enclosing types are not both object types although the fragments around them are on
+            // different object types, or on an object type and an interface it does not implement: not mutually exclusive
+            {
+                let fv = ["k: name", "k: nick", "k: owner { name }", "k: owner { name: nick }", "k: owner { k: name }"];
+                for a in fv.iter() { for b in fv.iter() {
+                    group += 1;
+                    for t in [format!("{{ pet {{ ... on Dog {{ {} }} ... on Feline {{ {} }} }} }}", a, b), format!("{{ pet {{ ... on Feline {{ {} }} ... on Dog {{ {} }} }} }}", b, a),
+                              format!("{{ pet {{ ...A ...B }} }} fragment A on Dog {{ ... on Pet {{ {} }} }} fragment B on Cat {{ ... on Pet {{ {} }} }}", a, b),
+                              format!("{{ pet {{ ...A ...B }} }} fragment A on Dog {{ ...C }} fragment B on Cat {{ ...D }} fragment C on Pet {{ {} }} fragment D on Pet {{ {} }}", a, b),
+                              format!("{{ pet {{ ...B ...A }} }} fragment A on Dog {{ name ...C }} fragment B on Cat {{ ...D nick }} fragment D on Feline {{ {} }} fragment C on Pet {{ {} }}", b, a),
+                              format!("{{ pet {{ ... on Dog {{ ... on Pet {{ {} }} }} ... on Cat {{ ... on Feline {{ {} }} }} }} }}", a, b),
+                              format!("{{ cd {{ ... on Dog {{ ... on Pet {{ {} }} }} ... on Cat {{ ... on Pet {{ {} }} }} }} }}", a, b),
+                              format!("{{ cd {{ ... on Dog {{ {} }} ... on Cat {{ ... on Feline {{ {} }} }} }} }}", a, b)] {
+                        emit(t, "abstract-mixed", group, out);
+                    }
+                } }
+            }
             // ---- fragment names that collide when two are written one after the other (Dog+DogName = DogDog+Name; AB+ABA ~ ABA+BA)
             for (n1, n2, n3, n4) in [("Dog", "DogName", "DogDog", "Name"), ("AB", "ABA", "ABAB", "A"), ("X", "XY", "XX", "Y")] {
                 for (b3, b4) in [("n: name", "n: nick"), ("n: name", "n: name"), ("k: f(x: 1)", "k: f(x: 2)")] {
